@@ -75,6 +75,12 @@ func fsUniverse(contents []string) []harness.Tree {
 // extra probe states exercising deeper recursion
 func fsProbeStates() []harness.Tree {
 	return []harness.Tree{
+		// zero-length files (a property guarded by "size > 0" would vanish here)
+		{"/": {Dir: true}, "/a": {Content: ""}, "/b.html": {Dir: true}, "/b.html/a": {Content: ""}, "/b.html/b.html": {Content: "x"}},
+		// names that need escaping on the request line and in the Destination header
+		{"/": {Dir: true}, "/a%41": {Content: "x"}, "/100%": {Dir: true}, "/100%/a b": {Content: "yy"}, "/é": {Content: "x"}},
+		// siblings one of whose names is a string prefix of the other
+		{"/": {Dir: true}, "/a": {Dir: true}, "/a/a": {Content: "x"}, "/ab": {Content: "yy"}, "/a.bak": {Dir: true}},
 		{"/": {Dir: true}, "/a": {Dir: true}, "/a/a": {Dir: true}, "/a/a/a": {Content: "x"}},
 		{"/": {Dir: true}, "/a": {Dir: true}, "/a/a": {Dir: true}, "/a/a/a": {Dir: true}, "/a/a/b.html": {Content: "yy"}, "/a/b.html": {Content: "x"}, "/b.html": {Content: "x"}},
 	}
@@ -151,6 +157,22 @@ func fsRequests(quick bool) []harness.Req {
 					q.Header["Content-Type"] = "text/xml; charset=\"utf-8\""
 				}
 				out = append(out, q)
+			}
+		}
+	}
+	// names that need escaping: every method, and COPY/MOVE with escaped Destination headers
+	special := []string{"/a%41", "/100%", "/100%/a b", "/é", "/aA", "/100%/new%2f", "/a b", "/a", "/ab", "/a.bak"}
+	for _, p := range special {
+		for _, m := range []string{"GET", "HEAD", "DELETE", "MKCOL", "OPTIONS"} {
+			out = append(out, harness.Req{Method: m, Path: p})
+		}
+		out = append(out, harness.Req{Method: "PUT", Path: p, Body: "x"})
+		out = append(out, harness.Req{Method: "PROPFIND", Path: p, Header: map[string]string{"Depth": "1"}})
+		for _, q := range special {
+			for _, m := range []string{"COPY", "MOVE"} {
+				for _, abs := range []string{"", "http://h"} {
+					out = append(out, harness.Req{Method: m, Path: p, Header: map[string]string{"Destination": abs + harness.EscapePath(q)}})
+				}
 			}
 		}
 	}
